@@ -321,31 +321,37 @@ theorem toTP_reverseSpec {o : Obj K} (hw : WF o m) (d : Fin m) (comp : ℕ) (hc 
     simp only [TP.reverse, toTP]
     rw [hn, valid_nAll_eq hv]
 
-/-- On a non-periodic direction the code's `Obj.reverse` (flip only) is `TP.reverse`. -/
-theorem toTP_reverse_open {o : Obj K} (hw : WF o m) (d : Fin m) (hper : (o.basis d).periodic = -1)
-    (comp : ℕ) (hc : comp < o.ncomp) :
-    TP.Agree (toTP (o.reverse d) m comp) ((toTP o m comp).reverse d) := by
-  have h1 := toTP_reverseSpec hw d comp hc
-  refine ⟨h1.τ, h1.q, h1.nAll, h1.n, ?_⟩
-  intro J hJ
-  rw [← h1.c J hJ]
-  have hJ' : ∀ k, J k < (o.basis k).numFunctions := by
-    intro k
-    have := hJ k
-    rw [show (toTP (o.reverse d) m comp).n = ((toTP o m comp).reverse d).n from h1.n] at this
-    exact this
-  have hn : o.cps.shape.getD d 1 = (o.basis d).numFunctions := by rw [hw.shape, midx_getD_lt]
-  show getIdx (o.cps.flipAxis d) (midx J comp) = getIdx (o.reverseSpec d).cps (midx J comp)
-  have e1 := getIdx_reindex_midx hw d (fun r => o.cps.shape.getD d 1 - 1 - r) J comp hJ' hc
-  have e2 := getIdx_reindex_midx hw d
-    (fun j => (o.cps.shape.getD d 1 + ((o.basis d).periodic + 1).toNat - 1 - j) % o.cps.shape.getD d 1)
-    J comp hJ' hc
-  unfold Obj.reverseSpec Tensor.flipAxis
+/-- The code's `reverse` (flip, then roll by `k+1` on a periodic direction) is exactly the
+    correspondence the property requires: the two model objects are equal, on every direction. -/
+theorem reverse_eq_reverseSpec (o : Obj K) (d : ℕ) : o.reverse d = o.reverseSpec d := by
+  unfold Obj.reverse Obj.reverseSpec
   simp only []
-  rw [e1, e2, hper, hn]
-  have := hJ' d
-  have e3 : ((-1 : Int) + 1).toNat = 0 := rfl
-  rw [e3, Nat.add_zero, Nat.mod_eq_of_lt (by omega)]
+  congr 1
+  by_cases hp : (o.basis d).periodic > -1
+  · rw [if_pos hp]
+    unfold Tensor.rollAxisPos Tensor.flipAxis
+    simp only []
+    have hsh : (o.cps.reindexAxis d (o.cps.shape.getD d 1) fun r => o.cps.shape.getD d 1 - 1 - r).shape
+        = o.cps.shape := set_getD_self o.cps.shape d 1
+    rw [hsh]
+    apply reindexAxis_reindexAxis
+    · intro r hr
+      exact Nat.mod_lt _ (by omega)
+    · intro r hr
+      exact roll_flip_idx _ _ r hr
+  · rw [if_neg hp]
+    have e3 : ((o.basis d).periodic + 1).toNat = 0 := by omega
+    rw [e3, Nat.add_zero]
+    unfold Tensor.flipAxis
+    apply reindexAxis_congr
+    intro r hr
+    rw [Nat.mod_eq_of_lt (by omega)]
+
+/-- The code's `Obj.reverse` is `TP.reverse` (every direction, periodic or not). -/
+theorem toTP_reverse {o : Obj K} (hw : WF o m) (d : Fin m) (comp : ℕ) (hc : comp < o.ncomp) :
+    TP.Agree (toTP (o.reverse d) m comp) ((toTP o m comp).reverse d) := by
+  rw [reverse_eq_reverseSpec]
+  exact toTP_reverseSpec hw d comp hc
 
 /-- `basis` after `swap`. -/
 theorem basis_swap (o : Obj K) (hs : o.bases.size = m) (a b k : Fin m) :
@@ -524,9 +530,10 @@ theorem wf_reparamObj {o : Obj K} (hw : WF o m) (d : Fin m) {s e : K} (h : s < e
     · subst hk; rw [hbd, reparamOk_numFunctions]
     · rw [hbk k hk]
 
-/-- One operation on the model object, as the property demands it (`reverse` = `reverseSpec`). -/
+/-- One operation on the model object (the model of the code: `Obj.reverse`, `Obj.swap`,
+    successful `Obj.reparamDir`). -/
 def applyM (o : Obj K) : TOp K m → Obj K
-  | .reverse d => o.reverseSpec d
+  | .reverse d => o.reverse d
   | .swap a b => o.swap a b
   | .reparam d s e => reparamObj o d s e
 
@@ -539,7 +546,10 @@ theorem toTP_applyM {o : Obj K} (hw : WF o m) (op : TOp K m) (hop : op.WF) (comp
     TP.Agree (toTP (applyM o op) m comp) ((toTP o m comp).apply op)
       ∧ WF (applyM o op) m ∧ (applyM o op).ncomp = o.ncomp := by
   cases op with
-  | reverse d => exact ⟨toTP_reverseSpec hw d comp hc, wf_reverseSpec hw d⟩
+  | reverse d =>
+    show TP.Agree (toTP (o.reverse d) m comp) _ ∧ WF (o.reverse d) m ∧ (o.reverse d).ncomp = o.ncomp
+    rw [reverse_eq_reverseSpec]
+    exact ⟨toTP_reverseSpec hw d comp hc, wf_reverseSpec hw d⟩
   | swap a b => exact ⟨toTP_swap hw a b comp hc, wf_swap hw a b⟩
   | reparam d s e => exact ⟨toTP_reparam hw d s e comp, wf_reparamObj hw d hop⟩
 
@@ -558,26 +568,6 @@ theorem toTP_runM (ops : List (TOp K m)) {o : Obj K} (hw : WF o m) (hops : ∀ o
     refine ⟨?_, g2, g3.trans h3⟩
     show TP.Agree (toTP (runM ops (applyM o op)) m comp) (TP.run ops ((toTP o m comp).apply op))
     exact g1.trans (h1.run (toTP_pos h2 comp) ops).1
-
-/-- On a non-periodic direction (with at least the array consistent) the code's flip is the
-    spec's re-indexing: the two model objects are equal. -/
-theorem reverse_eq_reverseSpec (o : Obj K) (d : ℕ) (hper : (o.basis d).periodic = -1) :
-    o.reverse d = o.reverseSpec d := by
-  unfold Obj.reverse Obj.reverseSpec Tensor.flipAxis Tensor.reindexAxis Tensor.build3
-  simp only [hper]
-  congr 2
-  congr 1
-  funext idx
-  have hpos := idx.isLt
-  have hn : 0 < o.cps.shape.getD d 1 := by
-    by_contra h
-    have h0 : o.cps.shape.getD d 1 = 0 := by omega
-    simp only [h0, Nat.mul_zero, Nat.zero_mul, Nat.not_lt_zero] at hpos
-  have hr := Nat.mod_lt (idx.val / (Tensor.split3 o.cps.shape d).2.2) hn
-  have e3 : ((-1 : Int) + 1).toNat = 0 := rfl
-  have hlt : o.cps.shape.getD d 1 - 1 - idx.val / (Tensor.split3 o.cps.shape d).2.2 % o.cps.shape.getD d 1
-      < o.cps.shape.getD d 1 := by omega
-  rw [e3, Nat.add_zero, Nat.mod_eq_of_lt hlt]
 
 /-! ## Involution / inverse at object level -/
 
